@@ -106,6 +106,9 @@ def length_value(pattern):
         return st.integers(0, 64).map(lambda k: k / 8.0)
     if pattern == "posdyadic":
         return st.integers(1, 64).map(lambda k: k / 8.0)
+    if pattern == "zeroish":
+        # many zero-length edges next to a few long ones
+        return st.sampled_from([0.0, 0.0, 0.0, 1.0, 2.0, 5.0])
     if pattern == "decimal":
         # multiples of 0.05: sums along different paths coincide often, but only up to rounding
         return st.sampled_from([0.05, 0.1, 0.1, 0.15, 0.2, 0.2, 0.25, 0.3, 0.3, 0.4, 0.7])
